@@ -313,7 +313,13 @@ pub fn run_session(sess: &Session) -> Vec<Value> {
     macro_rules! emit_cmd {
         ($memd:expr) => {
             if let Some((c, text, det)) = pending.take() {
-                let mut ev = json!({"ev": "cmd", "c": c, "text": text, "err": lines(&err_buf), "out": codepoints(&out_buf),
+                // `assembly` prints ONE statement text, which may itself contain line breaks
+                let err_lines = if c["n"] == "assembly" && err_buf.trim_end_matches('\n').contains('\n') && !err_buf.contains("::") {
+                    vec![err_buf.trim_end_matches('\n').to_string()]
+                } else {
+                    lines(&err_buf)
+                };
+                let mut ev = json!({"ev": "cmd", "c": c, "text": text, "err": err_lines, "out": codepoints(&out_buf),
                                     "nin": nin, "bps": last_bps, "det": det, "post": []});
                 if let Some(chars) = c.get("chars") {
                     // C14: the specification parses the raw line itself
